@@ -39,6 +39,8 @@ def check_stat(ctx, case):
     n, s = traces.shape
     cuts = [0] + list(case['cuts']) + [n]
     obj = _make(kind, precision)
+    fed = []
+    held = []
     import warnings
     mid = list(case.get('mid_computes') or [])
     with warnings.catch_warnings():
@@ -55,10 +57,17 @@ def check_stat(ctx, case):
                         dbuf[...] = data[a:b]
                     must(case, '%s.update (same buffers refilled in place)' % kind, obj.update, tbuf, dbuf)
                 else:
-                    must(case, '%s.update' % kind, obj.update, gen.relayout(traces[a:b], lt), gen.relayout(data[a:b], ld))
+                    ta, da = gen.relayout(traces[a:b], lt), gen.relayout(data[a:b], ld)
+                    fed.append((ta, da))
+                    must(case, '%s.update' % kind, obj.update, ta, da)
                 if bi < len(mid) and mid[bi]:
-                    must(case, '%s.compute between batches' % kind, obj.compute)   # must not disturb what follows
+                    r = must(case, '%s.compute between batches' % kind, obj.compute)   # must not disturb what follows
+                    held.append((bi, r, np.array(r, copy=True)))
         res = must(case, '%s.compute' % kind, obj.compute)
+        for bi, r, snapshot in held:
+            # a result obtained earlier stays what it was: it is the statistic of the batches processed up to then
+            if not dist.same(r, snapshot):
+                raise Violation('%s: the array returned by compute() after batch %d changed when later batches were processed / compute() was called again' % (kind, bi + 1), case)
         if case.get('compute_twice'):
             _first = np.array(res, copy=True)
             if isinstance(res, np.ndarray) and res.flags.writeable:
@@ -68,6 +77,12 @@ def check_stat(ctx, case):
             if not dist.same(res, res2):
                 raise Violation('%s: two consecutive compute() calls without new data differ' % kind, case)
             res = res2
+        if case.get('feed_again') and fed and not case.get('same_buffer'):
+            # the very same array objects are then fed to a second distinguisher (a batch analysed twice): its result is the one checked below
+            obj = _make(kind, precision)
+            for ta, da in fed:
+                must(case, '%s.update (arrays already fed to another distinguisher)' % kind, obj.update, ta, da)
+            res = must(case, '%s.compute (second distinguisher fed the same arrays)' % kind, obj.compute)
     wshape = data.shape[1:] if data.ndim > 1 else (1,)
     if not isinstance(res, np.ndarray) or res.shape != tuple(wshape) + (s,):
         raise Violation('%s: result shape %s, expected data.shape[1:] + (samples,) = %s' % (kind, np.shape(res), tuple(wshape) + (s,)), case)
@@ -98,14 +113,14 @@ def check_stat(ctx, case):
                 raise Violation('%s: |r| = %r > 1' % (kind, g), case)
     nontrivial = (n_undef > 0 and n_def > 0) or data.ndim >= 3
     ctx.case(case, nontrivial, ['kind:' + kind, 'prec:' + precision, 'regime:' + regime, 'word_ndim:%d' % (data.ndim - 1),
-                                'has_undefined' if n_undef else 'all_defined', 'batches:%d' % (len(cuts) - 1), 'tdtype:' + str(traces.dtype), 'layout:%s/%s' % tuple(case.get('layout') or ('C', 'C'))] + (['same_buffer_refilled'] if case.get('same_buffer') else []) + (['compute_before_final'] if any(mid) or case.get('compute_twice') else []))
+                                'has_undefined' if n_undef else 'all_defined', 'batches:%d' % (len(cuts) - 1), 'tdtype:' + str(traces.dtype), 'layout:%s/%s' % tuple(case.get('layout') or ('C', 'C'))] + (['same_buffer_refilled'] if case.get('same_buffer') else []) + (['same_arrays_fed_to_a_second_distinguisher'] if case.get('feed_again') and not case.get('same_buffer') else []) + (['compute_before_final'] if any(mid) or case.get('compute_twice') else []))
 
 
 def replay(ctx, case):
     check_stat(ctx, case)
 
 
-BIG_SIZES = [4097, 8193, 16385, 20000, 32769, 65537]
+BIG_SIZES = [4097, 8193, 16385, 20000, 32769, 65537, 131073, 150001]
 
 
 @st.composite
@@ -205,7 +220,7 @@ def stat_cases(draw, kind, large=False):
     # memory layout of what the caller passes: C order, Fortran order, strided and negative-stride views (values are the same)
     layout = [draw(st.sampled_from(gen.LAYOUTS)), draw(st.sampled_from(gen.LAYOUTS))]
     return {'kind': 'stat', 'dist': kind, 'precision': precision, 'regime': regime, 'traces': traces, 'data': data, 'cuts': cuts, 'layout': layout, 'same_buffer': same_buffer,
-            'mid_computes': mid, 'compute_twice': draw(st.booleans())}
+            'mid_computes': mid, 'compute_twice': draw(st.booleans()), 'feed_again': draw(st.integers(0, 3)) == 0}
 
 
 def unit_generated(ctx, kind, n, large=False):
